@@ -65,14 +65,16 @@ def isK4 (c : Cfg) (qlen n : Nat) (hits : List Biogo.Spec.Filter.Hit) (a b : Nat
     hits.any fun h => h.diagonal == (c.tlen : Int) - x * c.off &&
       decide (h.from_ < (b : Int) + n) && decide ((b : Int) < h.to)
 
-def handleFl (k n e off : Nat) (self comp : Bool) (t q : List UInt8) (obs : String) : Verdict :=
+def handleFl (op : String) (k n e off : Nat) (self comp : Bool) (t q : List UInt8) (obs : String) : Verdict :=
   match Biogo.Generated.alphaDNA.build with
   | .ok (alpha, _) =>
     let lk := Biogo.Drive.C10.lookupOf alpha
     let rule := Biogo.Generated.FilterFacts.rule
     let p : Params := { minMatch := n, maxError := e, tubeOffset := off }
     let thr := minWordsPerFilterHit n k e
-    let tags0 := ["fl", s!"k={k}", s!"e={e}", sizeTag (max t.length q.length)]
+    let invalid (s : List UInt8) : Bool := s.any fun b => (lk b).isNone
+    let tags0 := [op, s!"k={k}", s!"e={e}", sizeTag (max t.length q.length)]
+      ++ (if invalid q then ["query-has-n"] else []) ++ (if invalid t then ["target-has-n"] else [])
       ++ (if self then [if comp then "self-complement" else "self"] else (if comp then ["complement"] else []))
     let inScope := thr > 0 && off ≥ e && off ≥ 1
     -- model
@@ -120,16 +122,17 @@ def handleFl (k n e off : Nat) (self comp : Bool) (t q : List UInt8) (obs : Stri
 
 def handleTokens (inp : List String) (obs : String) : Verdict :=
   match inp with
-  | ["fl", k, n, e, off, self, comp, ht, hq] =>
+  | [op, k, n, e, off, self, comp, ht, hq] =>
+    if op != "fl" && op != "fln" then bad "unknown-op" else
     match parseNat k, parseNat n, parseNat e, parseNat off, parseBool self, parseBool comp, bytesOfHex ht with
     | some k, some n, some e, some off, some self, some comp, some t =>
       match (if hq == "=" then some t else bytesOfHex hq) with
-      | some q => handleFl k n e off self comp t q obs
+      | some q => handleFl op k n e off self comp t q obs
       | none => bad "query"
     | _, _, _, _, _, _, _ => bad "fl"
   | _ => bad "unknown-op"
 
-def ops : List String := ["fl"]
+def ops : List String := ["fl", "fln"]
 
 def handle (line : String) : String :=
   let (inp, obs) := splitCase line
